@@ -62,6 +62,14 @@ def m_tiny(y_true, y_pred, **kw):
     return 1e-10 * m_lin(y_true, y_pred, **kw)
 
 
+def m_nanhit(y_true, y_pred):
+    """Undefined (NaN, like a precision without predicted positives) on row sets where no prediction is right."""
+    hits = int(np.sum(np.asarray(y_true) == np.asarray(y_pred)))
+    if hits == 0:
+        return float("nan")
+    return len(y_true) / hits
+
+
 def m_const(y_true, y_pred, **kw):
     """Constant over the rows: every resample and every group gives the same value."""
     return 3.5
@@ -74,8 +82,8 @@ def _fl(name):
 
 
 def metric_callable(key):
-    if key in ("lin", "max", "wmean", "npint", "npfloat", "const", "tiny"):
-        return {"lin": m_lin, "max": m_max, "wmean": m_wmean, "npint": m_npint, "npfloat": m_npfloat,
+    if key in ("lin", "max", "wmean", "npint", "npfloat", "const", "tiny", "nanhit"):
+        return {"nanhit": m_nanhit, "lin": m_lin, "max": m_max, "wmean": m_wmean, "npint": m_npint, "npfloat": m_npfloat,
                 "const": m_const, "tiny": m_tiny}[key]
     if key in ("count", "selection_rate", "mean_prediction", "true_positive_rate", "false_positive_rate",
                "true_negative_rate", "false_negative_rate"):
@@ -96,6 +104,7 @@ METRIC_PARAMS = {
     "wmean": ["sample_weight"],
     "const": ["p"],
     "tiny": ["sample_weight", "p"],
+    "nanhit": [],
     "count": [],
     "selection_rate": ["sample_weight"],
     "mean_prediction": ["sample_weight"],
